@@ -1975,3 +1975,135 @@ func ruleFLOCKACQUIRE(p *Program, rep *Report) {
 		rep.Bad("FLOCK-ACQUIRE", "osfs.File.doLock|"+strings.Join(problems, "; "), pos, strings.Join(problems, "; "))
 	}
 }
+
+// ---- DATA-END-SKIPS-OVERFLOW (C04, C14) ----
+
+// ruleDATAENDSKIPSOVERFLOW: the overflow area is carved out at the meta end marker, beyond the data end marker;
+// while the file is bounded the data area cannot reach it (capacity test against maxPages).  Once the limit is
+// raised (Open with FlagUpdMaxSize) — or in an unbounded file — the pages in [data end, meta end) are in use
+// by the meta area.  So wherever pages are taken from the unused end of the data area (allocFromArea on the
+// data end marker), the relation of the two markers has to be taken into account first: the data end marker
+// raised to the meta end marker (as the unbounded branch of tryGrow does) or a dominating comparison of the
+// two.  Otherwise live overwrite / mapping / free-list pages are handed out as data pages.
+func ruleDATAENDSKIPSOVERFLOW(p *Program, rep *Report) {
+	rep.Rule("DATA-END-SKIPS-OVERFLOW", 2, "every allocation from the unused end of the data area (allocFromArea on the data end marker) is preceded on every path by a raise of the data end marker to the meta end marker, or dominated by a comparison of the two markers: the pages between them belong to the overflow area in use")
+	v := newAllocVocab(p)
+	isMarkerLoadOf := func(x ssa.Value, area string) bool {
+		u, ok := stripConv(x).(*ssa.UnOp)
+		return ok && u.Op == token.MUL && areaOfMarkerAddr(u.X, v.fEndMarker) == area
+	}
+	n := 0
+	for _, fn := range p.SrcFuncs() {
+		if fnPkgPath(fn) != modPath {
+			continue
+		}
+		for _, b := range fn.Blocks {
+			for i, ins := range b.Instrs {
+				c, ok := ins.(ssa.CallInstruction)
+				if !ok || c.Common().StaticCallee() != v.allocFromArea || len(c.Common().Args) < 2 || areaOfMarkerAddr(c.Common().Args[1], v.fEndMarker) != "data" {
+					continue
+				}
+				n++
+				rep.Analysed(funcName(fn))
+				key := funcName(fn) + "|data-end-advance"
+				// (a) a raise  data.endMarker = <meta.endMarker>  on every path before the call (block-granular)
+				raised := map[*ssa.BasicBlock]bool{}
+				sameBlockBefore := false
+				for _, b2 := range fn.Blocks {
+					for j, in2 := range b2.Instrs {
+						st, isSt := in2.(*ssa.Store)
+						if !isSt || areaOfMarkerAddr(st.Addr, v.fEndMarker) != "data" {
+							continue
+						}
+						if dataSliceHasMarker(p, st.Val, v.fEndMarker, "meta") {
+							if b2 == b && j < i {
+								sameBlockBefore = true
+							}
+							raised[b2] = true
+						}
+					}
+				}
+				// ... or a helper that performs the raise on every one of its return paths
+				isRaiseStore := func(x ssa.Instruction) bool {
+					st, isSt := x.(*ssa.Store)
+					return isSt && areaOfMarkerAddr(st.Addr, v.fEndMarker) == "data" && dataSliceHasMarker(p, st.Val, v.fEndMarker, "meta")
+				}
+				for _, b2 := range fn.Blocks {
+					for j, in2 := range b2.Instrs {
+						c2, isCall := in2.(ssa.CallInstruction)
+						if !isCall {
+							continue
+						}
+						if _, isDefer := in2.(*ssa.Defer); isDefer {
+							continue
+						}
+						h := c2.Common().StaticCallee()
+						if h == nil || h == v.allocFromArea || fnPkgPath(h) != modPath || len(h.Blocks) == 0 {
+							continue
+						}
+						// the helper raises on every path, or every path passes a comparison of the two markers
+						// (the raise is only needed on one side of it)
+						considers := func(x ssa.Instruction) bool {
+							if isRaiseStore(x) {
+								return true
+							}
+							iff, isIf := x.(*ssa.If)
+							if !isIf {
+								return false
+							}
+							bo, isBo := iff.Cond.(*ssa.BinOp)
+							return isBo && ((isMarkerLoadOf(bo.X, "data") && isMarkerLoadOf(bo.Y, "meta")) || (isMarkerLoadOf(bo.X, "meta") && isMarkerLoadOf(bo.Y, "data")))
+						}
+						hasRaise := false
+						for _, hb := range h.Blocks {
+							for _, hi := range hb.Instrs {
+								if isRaiseStore(hi) {
+									hasRaise = true
+								}
+							}
+						}
+						if !hasRaise || !everyReturnPasses(p, h, considers, 0) {
+							continue
+						}
+						if b2 == b && j < i {
+							sameBlockBefore = true
+						}
+						raised[b2] = true
+					}
+				}
+				okRaise := sameBlockBefore
+				if !okRaise && len(raised) > 0 && !raised[b] {
+					okRaise = !reachableAvoiding(fn.Blocks[0], raised, nil)[b]
+				}
+				// (b) a dominating comparison of the two markers (interprocedural guard context)
+				facts := p.ctxFacts(b)
+				okCmp := len(facts) > 0 && facts.every(func(cj conj) bool {
+					return cj.has(func(a atom) bool {
+						_, x, y, isCmp := cmpAtom(a)
+						return isCmp && ((isMarkerLoadOf(x, "data") && isMarkerLoadOf(y, "meta")) || (isMarkerLoadOf(x, "meta") && isMarkerLoadOf(y, "data")))
+					})
+				})
+				if okRaise || okCmp {
+					rep.OK("DATA-END-SKIPS-OVERFLOW", key, p.InstrPos(ins), "the meta end marker is taken into account before pages are taken from the end of the data area")
+				} else {
+					rep.Bad("DATA-END-SKIPS-OVERFLOW", key, p.InstrPos(ins), "pages are allocated from the unused end of the data area starting at the data end marker without regard to the meta end marker: when the overflow area is in use (meta end marker beyond the data end marker) and the size limit no longer separates the two — the maximum size was raised on open — live overwrite, mapping and free-list pages in [data end, meta end) are handed out as data pages and overwritten")
+				}
+			}
+		}
+	}
+	if n == 0 {
+		rep.Unknown("DATA-END-SKIPS-OVERFLOW", "anchor", "", "no allocFromArea on the data end marker found (anchor lost)")
+	}
+}
+
+// dataSliceHasMarker: the data slice of v contains a load of <area>.endMarker.
+func dataSliceHasMarker(p *Program, v ssa.Value, endMarker *types.Var, area string) bool {
+	sl := &slicer{p: p, fields: map[*types.Var]bool{}, seen: map[sliceKey]bool{}, dataOnly: true}
+	sl.walk(v, 0, nil, 0)
+	for _, l := range sl.loads {
+		if areaOfMarkerAddr(l.X, endMarker) == area {
+			return true
+		}
+	}
+	return false
+}
